@@ -508,10 +508,15 @@ pub fn cases(prop: &str, tier: &str, ctx: &mut Ctx, rng: &mut Rng) {
                         if k == 0 {
                             // an UNKNOWN path under two spellings, same recursive flag: validation must report
                             // both keys, each with its own derives, whatever the hash seed (seeded change C06-6)
-                            spec.ops.push(OpSpec::DerivesFor("zz::gone::Unknown".into(), vec!["U1".into()], true));
+                            // ... and derives / attributes that are ALSO registered for all types (before or after, depending
+                            // on the permutation): the per-type sets that validation reports must not depend on
+                            // that order (seeded change C06r8: per-type registrations dropped what was already global)
+                            spec.ops.push(OpSpec::DerivesFor("zz::gone::Unknown".into(), vec!["U1".into(), "Clone".into(), "D1".into()], true));
+                            spec.ops.push(OpSpec::DerivesFor("zz::gone::OnlyGlobal".into(), vec!["Clone".into()], false));
+                            spec.ops.push(OpSpec::AttrsFor("zz::gone::OnlyGlobalAttr".into(), vec!["#[attr2]".into()], true));
                             spec.ops.push(OpSpec::DerivesFor("::zz::gone::Unknown".into(), vec!["U2".into()], true));
                             spec.ops.push(OpSpec::AttrsFor("zz::gone::Unknown<T>".into(), vec!["#[u3]".into()], false));
-                            spec.ops.push(OpSpec::AttrsFor("zz::gone::Unknown".into(), vec!["#[u4]".into()], false));
+                            spec.ops.push(OpSpec::AttrsFor("zz::gone::Unknown".into(), vec!["#[u4]".into(), "#[attr1]".into(), "#[shared(arg2)]".into()], false));
                             spec.ops.push(OpSpec::DerivesFor(format!("::{key}"), vec!["SpelledAbs".into()], false));
                             spec.ops.push(OpSpec::DerivesFor(format!("{key}<T>"), vec!["SpelledGen".into()], false));
                             spec.ops.push(OpSpec::AttrsFor(format!("::{key}"), vec!["#[spelled_abs]".into()], true));
@@ -682,6 +687,24 @@ pub fn cases(prop: &str, tier: &str, ctx: &mut Ctx, rng: &mut Rng) {
                     flip("root", &|s| s.root = "other_root".into());
                     flip("compact_path", &|s| s.compact = Some("::other::Cpt".into()));
                     flip("bits_path", &|s| s.bits = Some("::other::Bits".into()));
+                }
+            }
+            // every SPELLING of a custom alloc path (seeded change C09r8: a path without a leading `::`
+            // was made global): global, bare, crate-rooted, relative and nested paths, each against the
+            // default and against each other, on the registries with heap types
+            for (n, _rj, reg) in &corp {
+                if !(n == "prelude-min" || n == "prelude" || reg.types.len() <= 40) {
+                    continue;
+                }
+                let spellings = ["::alloc", "alloc", "crate::alloc", "self::alloc", "super::super::alloc", "::a::b::c", "my::nested::alloc"];
+                let base = base_spec(reg);
+                for (i, a) in spellings.iter().enumerate() {
+                    let mut x = base.clone();
+                    x.alloc = Some(a.to_string());
+                    ctx.push_pair(&format!("alloc-spelling:{n}"), "alloc", (reg, &base), (reg, &x));
+                    let mut y = base.clone();
+                    y.alloc = Some(spellings[(i + 1) % spellings.len()].to_string());
+                    ctx.push_pair(&format!("alloc-spelling:{n}"), "alloc", (reg, &x), (reg, &y));
                 }
             }
             // all 2^6 combinations of the switches; every edge of the cube (two combinations that differ
